@@ -262,3 +262,39 @@ def c20(prop, tier, seed, core):
 
 HANDLERS["C19"] = c19
 HANDLERS["C20"] = c20
+
+
+def c15(prop, tier, seed, core):
+    import subprocess, sys, json
+    work = _work(core, prop)
+    runs = [(seed, 60)] if tier == "quick" else [(seed * 100 + k, 160) for k in range(6)]
+    res = []
+    for (sd, n) in runs:
+        g = core.sh([sys.executable, os.path.join(core.VERIF, "tools", "gen_twins.py"), "--seed", str(sd), "--n", str(n)], cwd=core.VERIF, timeout=120)
+        b = core.sh(["cargo", "build", "-q", "-p", "twins"], cwd=core.HARNESS, timeout=1500)
+        if b.returncode != 0:
+            # the generated crate is ordinary Rust that compiles on the unchanged tree; if the twins no longer
+            # compile, the macro rejected or mangled a function it accepted before
+            rp = os.path.join(core.REPLAYS, "C15-build-%d.log" % sd)
+            os.makedirs(core.REPLAYS, exist_ok=True)
+            open(rp, "w").write(b.stdout[-6000:])
+            res.append(("twins#%d" % sd, 0, {"executions": 1, "distinct_executions": 0, "programs": 0, "violations": [
+                {"category": "Twins", "signature": "expansion-does-not-compile", "detail": "the crate with the annotated twins no longer compiles: " + b.stdout[-400:].replace("\n", " | "), "replay": rp}]}, ""))
+            continue
+        out = os.path.join(work, "twins-%d.json" % sd)
+        res += core.run_shards(prop, [("twins#%d" % sd, [core.binpath("twins"), "--out", out], out)], 300)
+    m = core.merge(prop, tier, seed, res, core.known_for(prop), engine="twins")
+    m["cov"]["functions"] = sum((d or {}).get("functions", 0) for _, _, d, _ in res)
+    m["rule"] = ("tools/gen_twins.py writes every function twice, in `mod plain` as written and in `mod traced` with #[fastrace::trace(..)]: a hand-written "
+                 "corpus (sync/async, generics, lifetimes, patterns and `mut` parameters, impl Trait in both positions, &self/&mut self/self methods, "
+                 "associated functions, unsafe fn, async-trait impls, async fn in traits, early return, `?`, loops with break values, panics, "
+                 "recursion, nested traced calls, closures capturing arguments, Drop-logging by-value arguments, name / short_name / enter_on_poll / "
+                 "properties with format strings and {{ }} escapes) plus seeded grammar-generated functions. Each case runs both twins on the same "
+                 "input (without a local parent and under one) and compares return value, ordered side-effect log, panic payload, multiset of "
+                 "dropped arguments; the delivered records must be exactly one per entered traced function (one per poll with enter_on_poll) with "
+                 "the expected name, the configured properties, and the (span, parent) pairs must equal the runtime call tree. evaluations = "
+                 "(function, input) pairs; all distinct.")
+    return m
+
+
+HANDLERS["C15"] = c15
